@@ -45,6 +45,27 @@ pub fn jobs(seed: u64, tier: &str) -> Vec<Job> {
             out.push(Job { label: format!("random {mode} #{i} n={n}"), map, cfg });
         }
     }
+    // long homogeneous runs (one colour / one column / one position): thresholds and caches that only show after dozens of
+    // equal objects (mono streaks, repeated patterns, saturating bonuses)
+    for (mi, mode) in ["osu", "taiko", "catch", "mania"].iter().enumerate() {
+        for (ri, run) in [33usize, 34, 40, 70, 130].iter().enumerate() {
+            let gap = [100u32, 250][(ri + mi) % 2];
+            let snd = [0u32, 8][ri % 2];
+            let mut s = format!("osu file format v14\n\n[General]\nMode: {mi}\n\n[Difficulty]\nHPDrainRate:5\nCircleSize:4\nOverallDifficulty:7\nApproachRate:9\nSliderMultiplier:1.4\nSliderTickRate:1\n\n[TimingPoints]\n0,400,4,2,0,100,1,0\n\n[HitObjects]\n");
+            let mut t = 1000u32;
+            for _ in 0..*run {
+                s += &format!("64,192,{t},1,{snd}\n");
+                t += gap;
+            }
+            for k in 0..6u32 {
+                s += &format!("{},100,{t},1,{}\n", 64 + 128 * (k % 4), [8u32, 0, 2][k as usize % 3]);
+                t += gap + 30 * k;
+            }
+            if let Ok(map) = Beatmap::from_bytes(s.as_bytes()) {
+                out.push(Job { label: format!("run of {run} equal {mode} objects every {gap} ms"), map, cfg: all[(ri + mi) % all.len()].clone() });
+            }
+        }
+    }
     for (id, w) in [("2785319", 150usize), ("1028484", 200), ("2118524", 150), ("1638954", 200)] {
         if let Ok(mut map) = Beatmap::from_path(format!("/repo/resources/{id}.osu")) {
             let w = w.min(map.hit_objects.len());
